@@ -213,15 +213,41 @@ type Resp struct {
 	Stack    string
 }
 
+// SlowPeerHeader, set on a request passed to Serve, makes that request's peer
+// drain its response slowly: a Write to the response blocks (a scheduling
+// point) before the bytes handed to it are consumed, as a write to a socket
+// with a full send buffer does. The header is not forwarded.
+const SlowPeerHeader = "X-Sim-Slow-Peer"
+
+type slowWriter struct {
+	http.ResponseWriter
+}
+
+func (s *slowWriter) Write(p []byte) (int, error) {
+	if sm := simkern.CurrentSim(); sm != nil {
+		sm.Y("peer.slow-read")
+	}
+	return s.ResponseWriter.Write(p)
+}
+
 // Serve calls h.ServeHTTP the way net/http would (an escaped panic is
 // recorded: the real server would abort the connection).
 func Serve(h http.Handler, method, path string, body *Body, contentLength int64, header map[string]string) *Resp {
 	r := httptest.NewRequest(method, path, body)
 	r.ContentLength = contentLength
+	slow := false
 	for k, v := range header {
+		if k == SlowPeerHeader {
+			slow = true
+			continue
+		}
 		r.Header.Set(k, v)
 	}
 	w := httptest.NewRecorder()
+	var rw http.ResponseWriter = w
+	if slow {
+		rw = &slowWriter{ResponseWriter: w}
+	}
 	resp := &Resp{}
 	func() {
 		defer func() {
@@ -230,7 +256,7 @@ func Serve(h http.Handler, method, path string, body *Body, contentLength int64,
 				resp.Stack = string(debug.Stack())
 			}
 		}()
-		h.ServeHTTP(w, r)
+		h.ServeHTTP(rw, r)
 	}()
 	resp.Status = w.Code
 	resp.Header = w.Header().Clone()
